@@ -19,7 +19,8 @@ def plan(tier, seed, scale):
     # departure times must range beyond the largest tier value (t_i + s vs. o flips at t_i = o - s + 1)
     return {"maxlen": 3, "maxval": 2 if q else 3, "tmax": 3 if q else 4, "n_cases": 1,
             "triple_sample": int((150000 if q else 3000000) * scale),
-            "rand_shapes": 0 if q else 1, "timeout_s": 600 if q else 7200}
+            "rand_shapes": 0 if q else 1, "timeout_s": 600 if q else 7200,
+            "mindelay_scenarios": int((3000 if q else 120000) * scale)}
 
 
 def model_apply(t: Tuple[int, ...], p: int, c: int, tiers: Tuple[int, ...]) -> Tuple[int, ...]:
@@ -68,6 +69,81 @@ def model_rel(a, b, tmax: int):
         if not le and not ge:
             break
     return le, ge
+
+
+
+def min_delay_violations(scn: dict, C: Counter) -> List[dict]:
+    """'Minimum delay' computations rely on the order: after the real setup of a generated scenario, the delay
+    cached for every (triggering ancestor -> simulator) pair must be a lower bound of the delay accumulated hop by
+    hop along EVERY triggering path between the two (real additions), for every departure time of a small box,
+    and it must be attained by one of the paths."""
+    import itertools as it
+    from mosaik.tiered_time import TieredTime as TT
+    from ..build import run_case
+    out: List[dict] = []
+    scn = dict(scn, until=1)
+    tr = run_case(scn, {"policy": "fifo", "atomic": True}, want_world=True)
+    world = tr.pop("_world", None)
+    o = tr["outcome"]
+    if world is None or o["kind"] not in ("ok",):
+        C["mindelay_scenarios_not_set_up"] += 1       # rejected cycles, KF-incomparable-delays, ...
+        return out
+    C["mindelay_scenarios"] += 1
+    sims = world.sims
+    edges: Dict[Any, List[tuple]] = {}
+    for s_ in sims.values():
+        for port_triggers in s_.triggers.values():
+            for dest, delay in port_triggers:
+                edges.setdefault(s_, []).append((dest, delay))
+    for dst in sims.values():
+        for src, cached in dst.triggering_ancestors.items():
+            # all walks src -> dst that repeat no simulator (dst == src: simple cycles)
+            paths: List[Any] = []
+            stack = [(src, None, (src,))]
+            while stack and len(paths) < 200:
+                node, acc, seen = stack.pop()
+                for nxt, d in edges.get(node, []):
+                    try:
+                        acc2 = d if acc is None else acc + d
+                    except Exception as e:  # noqa: BLE001
+                        out.append({"kind": "delay_addition_raised", "error": f"{type(e).__name__}: {e}"[:200]})
+                        continue
+                    if nxt is dst:
+                        paths.append((acc2, seen + (nxt,)))
+                    elif nxt not in seen:
+                        stack.append((nxt, acc2, seen + (nxt,)))
+            if not paths:
+                out.append({"kind": "cached_ancestor_without_triggering_path", "src": src.sid, "dst": dst.sid,
+                            "cached": repr(cached)})
+                continue
+            C["mindelay_pairs"] += 1
+            C["mindelay_paths"] += len(paths)
+            if len(paths) >= 2:
+                C["mindelay_pairs_with_several_paths"] += 1
+            plen = cached.pre_length
+            attained = False
+            for acc, seen in paths:
+                same = True
+                for t in it.product(range(3), repeat=plen):
+                    T = TT(*t)
+                    a, b = T + cached, T + acc
+                    C["mindelay_arrivals_compared"] += 1
+                    if b < a:
+                        out.append({"kind": "cached_minimum_delay_is_not_a_lower_bound", "src": src.sid, "dst": dst.sid,
+                                    "cached": repr(cached), "path": [x.sid for x in seen], "path_delay": repr(acc),
+                                    "departure": list(t), "arrival_by_cached": repr(a), "arrival_along_path": repr(b)})
+                        return out
+                    if a != b:
+                        same = False
+                attained = attained or same
+            if not attained and len(paths) < 200:
+                out.append({"kind": "cached_minimum_delay_is_attained_by_no_path", "src": src.sid, "dst": dst.sid,
+                            "cached": repr(cached), "paths": [repr(p[0]) for p in paths][:6]})
+    try:
+        world.shutdown()
+    except Exception:  # noqa: BLE001
+        pass
+    return out
 
 
 def run_slice(job: dict) -> dict:
@@ -267,7 +343,18 @@ def run_slice(job: dict) -> dict:
                     if (X == Y) != (hash(X) == hash(Y)) and X == Y:
                         viol("tiered_time_hash", x=list(x), y=list(y))
             res["evaluations"] += len(pts) ** 2
-    # ---- compatibility of < with addition on the left and right -------------------
+    # ---- minimum-delay computations of the real setup on generated scenarios --------
+    from ..gen import PROFILES, gen_scenario
+    profs = ["core", "deep", "sibling", "wild", "big", "events"]
+    for i in range(w, job.get("mindelay_scenarios", 0), W):
+        pn = profs[i % len(profs)]
+        scn = gen_scenario(H(job["seed"], "c08md", pn, i) % (1 << 48), PROFILES[pn])
+        vs = min_delay_violations(scn, C)
+        res["evaluations"] += 1
+        for v in vs[:2]:
+            C["violation_" + v["kind"]] += 1
+            if len(res["violations"]) < 10:
+                res["violations"].append({"v": v, "replay": {"mindelay_scn": scn}})
     res["hashes"] = list(res["hashes"])
     res["counters"] = dict(C)
     return res
@@ -285,6 +372,8 @@ def replay(rep: dict) -> List[dict]:
     from mosaik.tiered_time import TieredInterval as TI
     v = rep["violation"]
     out = []
+    if (rep.get("replay") or {}).get("mindelay_scn"):
+        return min_delay_violations(rep["replay"]["mindelay_scn"], Counter())
     if "a" in v and "b" in v and v["kind"] in ("trichotomy", "smaller_delay_later_arrival", "not_antisymmetric",
                                                "incomparable_but_pointwise_ordered", "derived_operator_inconsistent"):
         a = (v["a"]["pre_length"], v["a"]["cutoff"], tuple(v["a"]["tiers"]))
@@ -311,6 +400,8 @@ def decide(m, tier):
     reasons = []
     if c.get("pairs_compared", 0) < 10000:
         reasons.append("fewer than 10000 pairs compared")
+    if c.get("mindelay_pairs_with_several_paths", 0) < 500:
+        reasons.append("fewer than 500 (ancestor, simulator) pairs with several triggering paths in generated scenarios")
     if c.get("triples_transitivity", 0) < 10000:
         reasons.append("fewer than 10000 transitivity triples with a<b<c")
     if c.get("action_checked", 0) < 10000 or c.get("assoc_checked", 0) < 10000:
@@ -323,7 +414,9 @@ def evidence(m, tier, seed):
     return {"level": "exploration", "coverage": {
         "rule": "all TieredInterval shapes (pre_length, cutoff, length <= 3) x all tier values in 0..maxval; every ordered "
                 "pair of equal shape is compared with the real operators and with the pointwise order of the "
-                "semantic model over all departure times in [0,maxval+1]^pre_length; <=, >=, != agree with <, ==, >; all chaining pairs for the action "
+                "semantic model over all departure times in [0,maxval+1]^pre_length; <=, >=, != agree with <, ==, >; (counters mindelay_*) the "
+                "minimum delays that the real setup caches for generated scenarios (triggering ancestors) are a lower bound of the "
+                "hop-by-hop arrival along every triggering path for all departure times in [0,2]^n and are attained by a path; all chaining pairs for the action "
                 "law; distinct_nontrivial = distinct ordered pairs the implementation accepted as comparable",
         "exhaustive": True,
         "transitivity_exhaustive": bool(c.get("transitivity_exhaustive")),
